@@ -18,8 +18,14 @@ DESIGN.md C12 list -> names here:
   (new) merge_exclusive_sound / merge_exclusive_none / merge_inclusive_partial / merge_inclusive_drops_witness /
         merge_inclusive_ne_witness : the literal `merge` decision table, incl. the defect of applying the
         inclusive table to a conjunction (symbolic.py l.582)
+  (second layer, Model/Symbolic2.lean) abs_expand_sound, signcase_product_sound, simplify_validator_sound_ext,
+        simplify_validator_sound_abs : absolute values (absval pre-pass) and product divisors;
+        flip_neg_factor_sound, flip_pos_factor_sound, flipB_complement, comparator_single_token,
+        comparator_priority_witness, equals_spec, testpoint_decides_flip, testpoint_on_boundary_witness,
+        merge_exclusive_none_iff_partial_witness : the string-free cores of symbolic.py
 -/
 import MysticVerif.Proofs.Symbolic
+import MysticVerif.Proofs.Symbolic2
 
 namespace MysticVerif.C12
 open MysticVerif.Sym
@@ -233,6 +239,141 @@ theorem merge_inclusive_ne_witness :
   · rw [e]; simp [TLine.holds, Cmp.holds]
   · simp [TLine.holds, Cmp.holds]
 
+/-! ## second layer: absolute values, product divisors (Model/Symbolic2.lean) -/
+
+/-- **absval pre-pass (symbolic.py l.490-583).** A relation with terms `c_k * abs(a_k)` on its left side / in its
+numerator holds at `x` iff for SOME choice of signs all conditions (`a_k >= 0` where abs was replaced by `+`,
+`a_k <= 0` where by `-`) hold and the relation with `abs` replaced accordingly holds.  For all term lists, items, points. -/
+theorem abs_expand_sound (ts : List (K × Form K)) (it : Item K) (x : Nat → K) :
+    (XItem.absl ts it).sat x ↔ ∃ p ∈ absExpand ts it, (∀ ln ∈ p.1, ln.sat x) ∧ p.2.sat x :=
+  absExpand_sound ts it x
+
+/-- `absK` (the model of python's `abs`) is the absolute value of the field -/
+theorem absK_spec (a : K) : absK a = |a| := absK_eq_abs a
+
+/-- **sign cases for a divisor that is a product of two factors**: four cases, the comparator flipped exactly when
+one factor is negative. -/
+theorem signcase_product_sound (cmp : Cmp) (p q1 q2 r : K) (h : q1 * q2 ≠ 0) :
+    cmp.holds (p / (q1 * q2)) r ↔
+      (0 < q1 ∧ 0 < q2 ∧ cmp.holds p (r * (q1 * q2))) ∨ (0 < q1 ∧ q2 < 0 ∧ cmp.flip.holds p (r * (q1 * q2))) ∨
+      (q1 < 0 ∧ 0 < q2 ∧ cmp.flip.holds p (r * (q1 * q2))) ∨ (q1 < 0 ∧ q2 < 0 ∧ cmp.holds p (r * (q1 * q2))) :=
+  Cmp.signcase2 cmp p q1 q2 r h
+
+/-- **simplify, end to end, extended class.** If the extended validator accepts, then at every point `x` at which the
+extra variables mean the monomials they stand for (`x m = x i * x j` for every product divisor), the input - linear
+lines, rational relations, relations with absolute values, rational relations with a product divisor - holds iff some
+returned case holds. -/
+theorem simplify_validator_sound_ext (inp : List (XItem K)) (out : List (List (Line K)))
+    (h : validateX inp out = true) (x : Nat → K) (hy : ∀ it ∈ inp, it.hyp x) :
+    (∀ it ∈ inp, it.sat x) ↔ ∃ s ∈ out, satAll s x := by
+  rw [expandX_sound inp x hy]
+  have := dnfEquiv_sound h x
+  simp only [List.mem_map, exists_exists_and_eq_and, canonSys_sat] at this
+  exact this
+
+/-- without product divisors there is no side condition: absolute values, all points -/
+theorem simplify_validator_sound_abs (inp : List (List (K × Form K) × Item K)) (out : List (List (Line K)))
+    (h : validateX (inp.map fun p => XItem.absl p.1 p.2) out = true) (x : Nat → K) :
+    (∀ it ∈ inp.map (fun p => XItem.absl p.1 p.2), it.sat x) ↔ ∃ s ∈ out, satAll s x :=
+  simplify_validator_sound_ext _ out h x (by
+    intro it hit
+    obtain ⟨p, _, rfl⟩ := List.mem_map.mp hit
+    trivial)
+
+/-! ## the string-free cores: `flip`, `comparator`, `equals`, the test-point decision -/
+
+/-- **flip.** Multiplying both sides by a negative factor: the relation holds iff the FLIPPED relation holds between
+the products (`flip`, symbolic.py l.200-212; `=`, `!=` untouched). -/
+theorem flip_neg_factor_sound (cmp : Cmp) (c a b : K) (hc : c < 0) :
+    cmp.holds a b ↔ cmp.flip.holds (c * a) (c * b) := by
+  cases cmp <;> simp only [Cmp.holds, Cmp.flip]
+  · exact (mul_lt_mul_left_of_neg hc).symm
+  · exact (mul_le_mul_left_of_neg hc).symm
+  · exact (mul_lt_mul_left_of_neg hc).symm
+  · exact (mul_le_mul_left_of_neg hc).symm
+  · exact (mul_right_inj' (ne_of_lt hc)).symm
+  · exact not_congr (mul_right_inj' (ne_of_lt hc)).symm
+
+/-- ... and by a positive factor the relation is kept -/
+theorem flip_pos_factor_sound (cmp : Cmp) (c a b : K) (hc : 0 < c) :
+    cmp.holds a b ↔ cmp.holds (c * a) (c * b) := by
+  cases cmp <;> simp only [Cmp.holds]
+  · exact (mul_lt_mul_iff_right₀ hc).symm
+  · exact (mul_le_mul_iff_right₀ hc).symm
+  · exact (mul_lt_mul_iff_right₀ hc).symm
+  · exact (mul_le_mul_iff_right₀ hc).symm
+  · exact (mul_right_inj' (ne_of_gt hc)).symm
+  · exact not_congr (mul_right_inj' (ne_of_gt hc)).symm
+
+omit [Field K] [IsStrictOrderedRing K] in
+/-- **flip(bounds=True)** of an inequality is its complement (l.197-199) -/
+theorem flipB_complement (cmp : Cmp) (hi : cmp.isIneq = true) (a b : K) : cmp.flipB.holds a b ↔ ¬ cmp.holds a b := by
+  cases cmp <;> simp_all [Cmp.holds, Cmp.flipB, Cmp.isIneq]
+
+/-- **comparator.** On a line that contains exactly one comparator text (and maybe a second copy of it), the priority
+table over `str.count` (l.189-192) returns that text although `<=` also contains `<` and `=` etc. -/
+theorem comparator_single_token (c : CTok) : comparatorOf c.toks = some c ∧ comparatorOf Toks.none = none := by
+  cases c <;> decide
+
+/-- with two different comparator texts on a line the result is the one of higher priority, not the first one
+(`a > b <= c` gives `<=`): lines of constraints contain one comparator -/
+theorem comparator_priority_witness : comparatorOf (CTok.gt.toks.or CTok.le.toks) = some .le := by decide
+
+/-- **equals** (l.425-487): when both texts evaluate, the answer is whether the two truth values agree; with
+`error=False` two failing evaluations count as equal, one failing as different; with `error=True` any failure is re-raised -/
+theorem equals_spec (errors : Bool) (b a : Bool) :
+    equalsM errors (some b) (some a) = .val (b == a) ∧
+    equalsM false none none = .val true ∧ equalsM false (some b) none = .val false ∧
+    equalsM false none (some a) = .val false ∧
+    equalsM true none none = .zde ∧ equalsM true (some b) none = .zde ∧ equalsM true none (some a) = .zde := by
+  cases errors <;> cases a <;> cases b <;> decide
+
+/-- **the test-point decision of `_simplify1` (l.738-741).** Let the isolated form be `a cmp b` and let the original
+line be equivalent, in the sign region of the test point, to `a cmp b` (`s = true`) or to `a flip(cmp) b`
+(`s = false`).  If the test point is not on the boundary (`a ≠ b`), then `equals` answers `s`, i.e. the comparator that
+is emitted, `flipDecision cmp eq`, is the right one. -/
+theorem testpoint_decides_flip (cmp : Cmp) (hi : cmp.isIneq = true) (s : Bool) (a b : K) (hab : a ≠ b) (before : Bool)
+    (hb : before = true ↔ (if s = true then cmp else cmp.flip).holds a b) (errors : Bool) :
+    equalsM errors (some before) (some (cmp.test a b)) = .val s ∧
+    flipDecision cmp (before == cmp.test a b) = (if s = true then cmp else cmp.flip) := by
+  have hf : cmp.flip.holds a b ↔ ¬ cmp.holds a b := by
+    rcases lt_or_gt_of_ne hab with h | h <;>
+      cases cmp <;> simp_all [Cmp.holds, Cmp.flip, Cmp.isIneq, le_of_lt, not_lt_of_gt, not_le_of_gt]
+  have ht := Cmp.test_iff cmp a b
+  have key : (before == cmp.test a b) = s := by
+    cases s
+    · simp only [Bool.false_eq_true, if_false] at hb
+      rw [hf, ← ht] at hb
+      cases hbf : before <;> cases htt : cmp.test a b <;> simp_all
+    · simp only [if_true] at hb
+      rw [← ht] at hb
+      cases hbf : before <;> cases htt : cmp.test a b <;> simp_all
+  refine ⟨by simp [equalsM, key], ?_⟩
+  rw [key]; cases s <;> simp [flipDecision]
+
+/-- the hypothesis `a ≠ b` is needed: at a test point ON the boundary of a weak inequality both directions hold, `equals`
+answers True and the comparator is kept even when it has to be flipped (`-x0 <= 0` tested at `x0 = 0` gives `x0 <= 0`;
+the real test point is random in (-1,1), so this has probability zero - reproduced with `rand=lambda: 0.5`). -/
+theorem testpoint_on_boundary_witness :
+    ∃ (cmp : Cmp) (a b : ℚ) (before : Bool), cmp.isIneq = true ∧ (before = true ↔ cmp.flip.holds a b) ∧
+      equalsM true (some before) (some (cmp.test a b)) = .val true ∧ flipDecision cmp (before == cmp.test a b) ≠ cmp.flip := by
+  refine ⟨.le, 0, 0, true, rfl, ?_, ?_, ?_⟩
+  · simp [Cmp.holds, Cmp.flip]
+  · simp [equalsM, Cmp.test]
+  · simp [flipDecision, Cmp.test, Cmp.flip]
+
+/-- **merge(inclusive=False) answers None only for SOME empty systems (partial).**  Full statement wanted (FALSE):
+`mergeExcl eqs = none ↔ ¬ ∃ point, all lines hold`.  `→` is `merge_exclusive_none`; for `←` the table only sees
+opposite bounds with literally the same sides: `['A > 3', 'A < 2']` is empty and is returned unchanged. -/
+theorem merge_exclusive_none_iff_partial_witness :
+    mergeExcl [(⟨0, .gt⟩ : TLine Nat), ⟨1, .lt⟩] = some [⟨0, .gt⟩, ⟨1, .lt⟩] ∧
+    ∀ A : ℚ, ¬ ∀ l ∈ [(⟨0, .gt⟩ : TLine Nat), ⟨1, .lt⟩], l.holds (fun e => if e = 0 then (A, 3) else (A, 2)) := by
+  refine ⟨by decide, fun A h => ?_⟩
+  have h0 := h ⟨0, .gt⟩ (by simp)
+  have h1 := h ⟨1, .lt⟩ (by simp)
+  simp [TLine.holds, Cmp.holds] at h0 h1
+  linarith
+
 /-! ## non-vacuity: the validators accept real rewrites and reject the targeted mistakes (at `ℚ`) -/
 
 section examples
@@ -278,6 +419,21 @@ example : mergeExcl [(⟨0, .gt⟩ : TLine Nat), ⟨0, .le⟩] = none := by deci
 /-- the hypotheses of `isolate_sound` / `signcase_sound` are satisfiable with a negative divisor -/
 example : Cmp.lt.holds ((-2 : ℚ) * 3 + 1) 0 ∧ (if (0 : ℚ) < -2 then Cmp.lt else Cmp.lt.flip).holds (3 : ℚ) (-1 / -2) := by
   constructor <;> norm_num [Cmp.holds, Cmp.flip]
+/-- `abs(x0 - 1) <= 2` vs `(x0 >= 1, x0 <= 3) | (x0 >= -1, x0 <= 1)` : accepted; with the second condition not flipped: rejected -/
+example : validateX [XItem.absl [((1 : ℚ), ⟨[1], -1⟩)] (.lin ⟨⟨[], 0⟩, .le, ⟨[], 2⟩⟩)]
+    [[⟨⟨[1], 0⟩, .ge, ⟨[], 1⟩⟩, ⟨⟨[1], 0⟩, .le, ⟨[], 3⟩⟩], [⟨⟨[1], 0⟩, .ge, ⟨[], -1⟩⟩, ⟨⟨[1], 0⟩, .le, ⟨[], 1⟩⟩]] = true := by
+  decide +kernel
+example : validateX [XItem.absl [((1 : ℚ), ⟨[1], -1⟩)] (.lin ⟨⟨[], 0⟩, .le, ⟨[], 2⟩⟩)]
+    [[⟨⟨[1], 0⟩, .ge, ⟨[], 1⟩⟩, ⟨⟨[1], 0⟩, .le, ⟨[], 3⟩⟩], [⟨⟨[1], 0⟩, .ge, ⟨[], -1⟩⟩, ⟨⟨[1], 0⟩, .ge, ⟨[], 1⟩⟩]] = false := by
+  decide +kernel
+/-- `x1/(x0*x2) = 3` vs `x0 != 0, x2 != 0, x1 = 3*x0*x2` (the monomial `x0*x2` is variable 3): accepted -/
+example : validateX [XItem.rat2 (⟨[0, 1], 0⟩ : Form ℚ) 1 0 0 1 0 2 3 .eq 3]
+    [[⟨⟨[1], 0⟩, .ne, ⟨[], 0⟩⟩, ⟨⟨[0, 0, 1], 0⟩, .ne, ⟨[], 0⟩⟩, ⟨⟨[0, 1], 0⟩, .eq, ⟨[0, 0, 0, 3], 0⟩⟩]] = true := by
+  decide +kernel
+/-- the hypotheses of `testpoint_decides_flip` are satisfiable: `-x0 <= 0` isolated as `x0 <= 0`, tested at `x0 = 1/2` -/
+example : equalsM true (some true) (some (Cmp.le.test (1/2 : ℚ) 0)) = .val false ∧
+    flipDecision .le (true == Cmp.le.test (1/2 : ℚ) 0) = .ge := by
+  constructor <;> norm_num [equalsM, flipDecision, Cmp.test, Cmp.flip]
 end examples
 
 end MysticVerif.C12
